@@ -500,8 +500,12 @@ def _solve(ob, pid, res, assumptions, diffs, regions, registry):
         s.add(o)
     s.add(neg)
     verdict = None
+    spent = 0.0
     for attempt in range(4):
+        if spent > 1.5 * ob.timeout_s:
+            break
         r, t = _check(s, ob.timeout_s)
+        spent += t
         res.solver_s += t
         res.queries.append({"q": "negated-property" + (" outside known regions" if regions else ""), "verdict": r, "ms": round(t * 1e3, 1)})
         if r == "unsat":
